@@ -19,7 +19,7 @@ ID = 'C04'
 LEVEL = 'model_checking'
 TECHNIQUE = ('exhaustive enumeration of marker-insertion points x damaged variants of seed descriptions x parse modes on the real '
              'PLSSDesc; oracle: the marker survives in a tract description or an unused_desc error flag')
-LEVEL_TEXT = ('19 seed descriptions x {intact, each token deleted, colons removed, stray Twp/Rge at 3 places, leading text, trailing '
+LEVEL_TEXT = ('19 (thorough: 43) seed descriptions x {intact, each token deleted, colons removed, stray Twp/Rge at 3 places, leading text, trailing '
               'text} x every token boundary x 2 markers (4 letters = the reportable minimum, and 7 letters) x 12 parse modes incl. every '
               'forced layout. Every block of text between two recognised markers is thereby probed in every role the parser can '
               'assign to it (tract description, unused component, chunk leftover, re-attached sec_within text).')
@@ -55,8 +55,16 @@ def worker_init(tier):
     warnings.simplefilter('ignore')
 
 
-def all_seeds():
-    return [t for _, _, t in soup.seeds()] + EXTRA_SEEDS
+def all_seeds(tier='quick'):
+    base = [t for _, _, t in soup.seeds()] + EXTRA_SEEDS
+    if tier == 'thorough':
+        # every layout x the remaining structures (3 Twp/Rge groups, recurring Twp/Rge) and two alternative renderings
+        for layout in gen.LAYOUTS:
+            for si in range(4, len(gen.STRUCTS)):
+                base.append(gen.render(layout, gen.STRUCTS[si], {})[0])
+            base.append(gen.render(layout, gen.STRUCTS[1], {'tr': 1, 'secw': 1, 'sep': 2})[0])
+            base.append(gen.render(layout, gen.STRUCTS[2], {'tr': 2, 'sep': 1, 'blockrot': 4})[0])
+    return base
 
 
 def variants(seed):
@@ -76,14 +84,14 @@ def variants(seed):
 
 def units(tier):
     us = []
-    for n in range(len(all_seeds())):
+    for n in range(len(all_seeds(tier))):
         for half in range(4):
             us.append({'seed': n, 'half': half})
     return us
 
 
 def space(tier):
-    return {'bound': f"{len(all_seeds())} seeds x (intact + every single token deletion + colons removed + 3 stray Twp/Rge + lead + trail) "
+    return {'bound': f"{len(all_seeds(tier))} seeds x (intact + every single token deletion + colons removed + 3 stray Twp/Rge + lead + trail) "
                      f"x every token boundary x {len(MARKERS)} markers x {len(MODES)} modes", 'caps_hit': []}
 
 
@@ -180,9 +188,16 @@ class SeenAll(set):
 
 def run_unit(unit, tier):
     acc = Acc()
-    seed = all_seeds()[unit['seed']]
+    seed = all_seeds(tier)[unit['seed']]
     seen = Seen(unit['half'])
     vs = variants(seed)
+    if tier == 'thorough' and unit['seed'] < 8:
+        # second damage level: every variant of every 3rd single-deletion variant
+        extra = []
+        for vname, toks in vs[1:1 + 12:3]:
+            for v2name, toks2 in variants(''.join(toks))[1:]:
+                extra.append((vname + '+' + v2name, toks2))
+        vs = vs + extra
     for vi, (vname, toks) in enumerate(vs):
         bounds = [i for i in range(len(toks) + 1) if i == 0 or i == len(toks) or toks[i - 1].isspace() or toks[i].isspace()
                   or not toks[i][0].isalnum() or not toks[i - 1][-1].isalnum()]
@@ -196,8 +211,13 @@ def run_unit(unit, tier):
 
 def replay(case):
     acc = Acc()
-    seed = all_seeds()[case['seed']]
-    toks = dict(variants(seed))[case['variant']]
+    seed = all_seeds('thorough')[case['seed']]
+    vname = case['variant']
+    if '+' in vname and not vname.startswith('stray'):
+        first, second = vname.split('+', 1)
+        toks = dict(variants(''.join(dict(variants(seed))[first])))[second]
+    else:
+        toks = dict(variants(seed))[vname]
     if case.get('words'):
         judge_words(acc, case['seed'], case['variant'], toks, case['mode'], SeenAll())
     else:
